@@ -376,7 +376,14 @@ func (s MState) withInserted(pos int, r MRec) MState {
 type modelCtx struct {
 	w   *World
 	clk opClock
+	// openTrailingBlank: some open range's line in the file ends with exactly one blank after the placeholder
+	// (a partial write can cut a line there). The parser reads that blank as the delimiter of an empty summary;
+	// text appended by `stop --summary` then starts with a blank of its own. The properties do not speak about
+	// that blank: both readings are allowed, for such files only.
+	openTrailingBlank bool
 }
+
+var openTrailingBlankRe = regexp.MustCompile(`(?m)^[ \t]+\S.*\?[ \t]\r?$`)
 
 func reject(why string) []MOutcome { return []MOutcome{{Reject: true, Why: why, Target: -1}} }
 
@@ -549,8 +556,17 @@ func (mc *modelCtx) apply(prev MState, op *Op) []MOutcome {
 					return reject("end before start")
 				}
 				e.Kind, e.End = "range", tt
+				bare := len(normSummary(e.Summary)) == 1 && normSummary(e.Summary)[0] == ""
 				e.Summary = appendSummary(e.Summary, a.Summary)
-				return []MOutcome{{State: st, Target: idx}}
+				outs := []MOutcome{{State: st, Target: idx}}
+				if mc.openTrailingBlank && bare && len(a.Summary) > 0 && a.Summary[0] != "" {
+					alt := st.clone()
+					as := append([]string{}, alt[idx].Entries[oi].Summary...)
+					as[0] = " " + as[0]
+					alt[idx].Entries[oi].Summary = as
+					outs = append(outs, MOutcome{State: alt, Target: idx})
+				}
+				return outs
 			}
 		}
 		if out := mc.withTargets(prev, y, m, d, false, nil, closeAt(t)); out != nil {
